@@ -332,6 +332,11 @@ def xdev_case(draw):
         'allow_xdev': draw(st.booleans()),
         'api': draw(st.sampled_from(['lib', 'lib', 'cli'])),
         'nfiles': draw(st.integers(1, 3)),
+        # CLI: an ordinary second path given before the crossing one
+        'two_paths': draw(st.booleans()),
+        # update: a valid Manifest that nothing references yet sits in an
+        # ordinary directory of the tree
+        'unregistered': draw(st.booleans()),
     }
 
 
@@ -448,9 +453,13 @@ def run_xdev(desc):
         if desc['api'] == 'lib':
             oc = gem.verify_lib(root, fail_handler=handler, loader_kwargs=lk)
         else:
+            cli_paths = [root]
+            if desc.get('two_paths'):
+                cli_paths = [os.path.join(root, 'plain'), root]
+                classes.append('two-paths')
             oc, records, _ = gem.cli(
                 ['verify', '-k'] + ([] if desc['allow_xdev'] else ['-x'])
-                + [root])
+                + cli_paths)
             calls = [os.path.normpath(p)
                      for p in gem.mismatch_paths(records)]
         v = check('verify', oc, allow_mismatch=not desc['listed'])
@@ -499,15 +508,27 @@ def run_xdev(desc):
         # update
         o = {'hashes': ['MD5'], 'sort': None, 'force': False, 'target': '',
              'api': desc['api'], 'watermark': None, 'format': None}
+        if desc.get('unregistered'):
+            with open(os.path.join(root, 'plain', 'Manifest'), 'w') as f:
+                f.write('DATA p1 5 MD5 %s\n'
+                        % hashlib.md5(b'data\n').hexdigest())
+            classes.append('unregistered-manifest')
         before = open(os.path.join(root, 'Manifest')).read()
+        extra_cli = [] if desc['allow_xdev'] else ['-x']
+        if desc['api'] == 'cli' and desc.get('two_paths'):
+            # `gemato update [-x] <tree>/plain <tree>`
+            extra_cli = extra_cli + [os.path.join(root, 'plain')]
         oc = updgen.run_update(
-            root, o, loader_kwargs=lk,
-            extra_cli=([] if desc['allow_xdev'] else ['-x']))
+            root, o, loader_kwargs=lk, extra_cli=extra_cli)
         v = check('update', oc, allow_mismatch=False)
         if v is not None and v != 'continue':
             return v
         if must_raise:
             after = open(os.path.join(root, 'Manifest')).read()
+            if desc['api'] == 'cli' and desc.get('two_paths'):
+                # the ordinary first path was updated and saved before the
+                # second one hit the boundary
+                after = before
             if after != before:
                 return violation(
                     'update: Manifest rewritten although the update hit a '
